@@ -86,7 +86,12 @@ func runOnce(c frames.Case) string {
 			} else {
 				s.Vx.Resize()
 			}
-			s.Vx.Render() // picks up the new size; the application then redraws
+			// picks up the new size; the application then redraws
+			if f.ByRefresh {
+				s.Vx.Refresh()
+			} else {
+				s.Vx.Render()
+			}
 			if same {
 				// not a size change: this was an ordinary Render
 				s.Drain()
